@@ -159,10 +159,10 @@ class C02(Prop):
                 g[n - 1] = g[n - 1] or 1
                 g[n - 2] = g[n - 2] or 3
                 yield {"k": "rot", "kind": "list", "g": g, "ins": ops}
-                yield {"k": "rot", "kind": "poly", "g": g, "ins": ops[:12], "pkg": "py"}
-                yield {"k": "rot", "kind": "map", "g": g, "ins": enum.idmap(n), "pkg": "py"}
+                yield {"k": "rot", "kind": "poly", "g": g, "ins": ops[:12]}
+                yield {"k": "rot", "kind": "map", "g": g, "ins": enum.idmap(n)}
                 qs = sorted(rng.sample(range(n - 6, n + 1), 3))
-                yield {"k": "rot", "kind": "list", "g": [g[q - 1] for q in qs] + [g[-1]], "qs": qs, "ins": ops, "pkg": "py"}
+                yield {"k": "rot", "kind": "list", "g": [g[q - 1] for q in qs] + [g[-1]], "qs": qs, "ins": ops}
         # (d) rotation sequences with the inverse sequence appended (N = 3..5)
         for w in self.walks:
             yield w
